@@ -1,52 +1,493 @@
 package ext
 
 import (
+	"strconv"
+
+	lang "github.com/alligator/jqawk/src"
 	"github.com/alligator/jqawk/zzverif/vh"
 )
+
+// Reference semantics of DESIGN.md §3.1/§3.2 (the "section 3" the property cites).
+
+const (
+	kNum = iota
+	kStr
+	kBool
+	kNull
+	kArr
+	kObj
+	nDocKinds
+	kUnset = 6
+	kRegex = 7
+	kFn    = 8
+)
+
+var kindNames = []string{"num", "str", "bool", "null", "arr", "obj", "unset", "regex", "fn"}
+
+// sv is a specification-level value.
+type sv struct {
+	kind int
+	num  float64
+	str  string
+	b    bool
+}
+
+// mkOperand creates a document value of the given kind with a symbolic payload, and
+// its specification twin. strLen = number of symbolic bytes of string operands.
+func mkOperand(name string, kind int, strLen int) (any, sv) {
+	switch kind {
+	case kNum:
+		f := vh.Float(name + "_n")
+		vh.Assume(vh.IsFinite(f)) // JSON documents hold finite doubles only
+		return f, sv{kind: kNum, num: f}
+	case kStr:
+		s := vh.Bytes(name+"_s", strLen)
+		return s, sv{kind: kStr, str: s}
+	case kBool:
+		b := vh.Bool(name + "_b")
+		return b, sv{kind: kBool, b: b}
+	case kNull:
+		return nil, sv{kind: kNull}
+	case kArr:
+		return []any{1.0}, sv{kind: kArr}
+	case kObj:
+		return map[string]any{"k": 1.0}, sv{kind: kObj}
+	}
+	panic("mkOperand: kind")
+}
+
+// specN is the numeric coercion N(v).
+func specN(v sv) float64 {
+	switch v.kind {
+	case kNum:
+		return v.num
+	case kStr:
+		f, err := strconv.ParseFloat(v.str, 64) // "numeric string" = accepted by ParseFloat
+		if err != nil {
+			return 0
+		}
+		return f
+	case kBool:
+		if v.b {
+			return 1
+		}
+		return 0
+	}
+	return 0
+}
+
+// specT is truthiness T(v).
+func specT(v sv) bool {
+	switch v.kind {
+	case kNum:
+		return v.num != 0
+	case kStr:
+		return len(v.str) > 0
+	case kBool:
+		return v.b
+	case kArr, kObj, kFn:
+		return true
+	}
+	return false // null, unset, regex
+}
+
+const (
+	resBool = iota
+	resNum
+	resStrAny // a string whose content the property leaves open
+	resStr
+	resErr
+	resDontCare
+)
+
+type sres struct {
+	kind int
+	b    bool
+	num  float64
+	str  string
+}
+
+func isContainer(v sv) bool { return v.kind == kArr || v.kind == kObj }
+
+// specCompare returns (cmp, err, dontcare) following §3.2.
+func specCompare(op string, a, b sv) sres {
+	if a.kind == kUnset || b.kind == kUnset {
+		switch op {
+		case "<", ">":
+			return sres{kind: resBool, b: true}
+		case "==":
+			return sres{kind: resBool, b: false}
+		}
+		return sres{kind: resDontCare}
+	}
+	var cmp int
+	switch {
+	case a.kind == kNull && b.kind == kNull:
+		cmp = 0
+	case a.kind == kNull:
+		if isContainer(b) {
+			return sres{kind: resDontCare}
+		}
+		cmp = -1
+	case b.kind == kNull:
+		if isContainer(a) {
+			return sres{kind: resDontCare}
+		}
+		cmp = 1
+	case isContainer(a) || isContainer(b):
+		return sres{kind: resErr}
+	case a.kind == kStr && b.kind == kStr:
+		if a.str < b.str {
+			cmp = -1
+		} else if a.str == b.str {
+			cmp = 0
+		} else {
+			cmp = 1
+		}
+	default:
+		x, y := specN(a), specN(b)
+		if x != x || y != y {
+			return sres{kind: resDontCare} // NaN operands: not determined by the statement
+		}
+		if x < y {
+			cmp = -1
+		} else if x > y {
+			cmp = 1
+		} else {
+			cmp = 0
+		}
+	}
+	switch op {
+	case "<":
+		return sres{kind: resBool, b: cmp < 0}
+	case "<=":
+		return sres{kind: resBool, b: cmp <= 0}
+	case "==":
+		return sres{kind: resBool, b: cmp == 0}
+	case "!=":
+		return sres{kind: resBool, b: cmp != 0}
+	case ">":
+		return sres{kind: resBool, b: cmp > 0}
+	case ">=":
+		return sres{kind: resBool, b: cmp >= 0}
+	}
+	panic("specCompare op")
+}
+
+func specArith(op string, a, b sv) sres {
+	if op == "+" && (a.kind == kStr || b.kind == kStr) {
+		if a.kind == kStr && b.kind == kStr {
+			return sres{kind: resStr, str: a.str + b.str}
+		}
+		// string with a number: S(a)·S(b), decided by VHC05Concat on concrete numbers;
+		// string with another kind: some string.
+		return sres{kind: resStrAny}
+	}
+	x, y := specN(a), specN(b)
+	switch op {
+	case "+":
+		return sres{kind: resNum, num: x + y}
+	case "-":
+		return sres{kind: resNum, num: x - y}
+	case "*":
+		return sres{kind: resNum, num: x * y}
+	case "/":
+		if y == 0 {
+			return sres{kind: resErr}
+		}
+		return sres{kind: resNum, num: x / y}
+	case "%":
+		if !(x > -9.2e18 && x < 9.2e18 && y > -9.2e18 && y < 9.2e18) {
+			return sres{kind: resDontCare} // beyond int64 the float->int conversion is platform-defined
+		}
+		i, j := int(x), int(y)
+		if j == 0 {
+			return sres{kind: resErr}
+		}
+		return sres{kind: resNum, num: float64(i % j)}
+	}
+	panic("specArith op")
+}
+
+// checkResult compares the implementation's outcome with the specification's.
+func checkResult(cell *lang.Cell, k int, want sres, what string) {
+	switch want.kind {
+	case resDontCare:
+		return
+	case resErr:
+		vh.Assert(k == ErrRuntime, what+": must be a runtime error")
+	case resBool:
+		vh.Assert(k == OK && isBool(cell), what+": must yield a boolean")
+		vh.Assert(*cell.Value.Bool == want.b, what+": wrong boolean result")
+	case resNum:
+		vh.Assert(k == OK && isNum(cell), what+": must yield a number")
+		vh.Assert(vh.SameFloat(*cell.Value.Num, want.num), what+": wrong numeric result")
+	case resStr:
+		vh.Assert(k == OK && isStr(cell), what+": must yield a string")
+		vh.Assert(*cell.Value.Str == want.str, what+": wrong string result")
+	case resStrAny:
+		vh.Assert(k == OK && isStr(cell), what+": must yield a string")
+	}
+}
 
 var arithOps = []string{"+", "-", "*", "/", "%"}
 var cmpOps = []string{"<", "<=", "==", "!=", ">", ">="}
 
-// VHC05NumArith: arithmetic on two numbers, all finite doubles (what JSON documents
-// can hold), operands routed through document fields.
-func VHC05NumArith() {
-	op := vh.Choose("op", len(arithOps))
-	l := vh.Float("l")
-	r := vh.Float("r")
-	vh.Assume(vh.IsFinite(l))
-	vh.Assume(vh.IsFinite(r))
-	cell, k, _ := evalExpr("$.l "+arithOps[op]+" $.r", map[string]any{"l": l, "r": r})
-	switch arithOps[op] {
-	case "+":
-		vh.Assert(k == OK && isNum(cell), "C05 + on numbers yields a number")
-		vh.Assert(vh.SameFloat(*cell.Value.Num, l+r), "C05 + on numbers is IEEE addition")
-	case "-":
-		vh.Assert(k == OK && isNum(cell), "C05 - on numbers yields a number")
-		vh.Assert(vh.SameFloat(*cell.Value.Num, l-r), "C05 - on numbers is IEEE subtraction")
-	case "*":
-		vh.Assert(k == OK && isNum(cell), "C05 * on numbers yields a number")
-		vh.Assert(vh.SameFloat(*cell.Value.Num, l*r), "C05 * on numbers is IEEE multiplication")
-	case "/":
-		if r == 0 {
-			vh.Reach("div by zero")
-			vh.Assert(k == ErrRuntime, "C05 / by zero is a runtime error")
-		} else {
-			vh.Reach("div ok")
-			vh.Assert(k == OK && isNum(cell), "C05 / is an error exactly when the divisor is zero")
-			vh.Assert(vh.SameFloat(*cell.Value.Num, l/r), "C05 / on numbers is IEEE division")
-		}
-	case "%":
-		// claimed for |N| < 2^63 (beyond that the float->int conversion is platform-defined)
-		vh.Assume(vh.And(vh.FloatLt(-9.2e18, l), vh.FloatLt(l, 9.2e18)))
-		vh.Assume(vh.And(vh.FloatLt(-9.2e18, r), vh.FloatLt(r, 9.2e18)))
-		i, j := int(l), int(r)
-		if j == 0 {
-			vh.Reach("mod by zero")
-			vh.Assert(k == ErrRuntime, "C05 % by a (truncated) zero is a runtime error")
-		} else {
-			vh.Reach("mod ok")
-			vh.Assert(k == OK && isNum(cell), "C05 % is an error exactly when the truncated divisor is zero")
-			vh.Assert(vh.SameFloat(*cell.Value.Num, float64(i%j)), "C05 % is the remainder of the truncated operands")
-		}
+func modRange(v sv) {
+	// % is claimed for |N| < 2^63 (beyond it the float->int conversion is platform-defined)
+	n := specN(v)
+	vh.Assume(vh.And(vh.FloatLt(-9.2e18, n), vh.FloatLt(n, 9.2e18)))
+}
+
+// strShape restricts a symbolic string operand to the shapes whose numeric coercion
+// the engine models exactly: all digits / digits with one '.', or containing a byte
+// that no numeric literal can contain (see DESIGN.md §2.6 strconv.ParseFloat).
+func strShape(name string, v sv) {
+	if v.kind != kStr {
+		return
 	}
+	for i := 0; i < len(v.str); i++ {
+		c := v.str[i]
+		vh.Assume(vh.Or(vh.InRange(c, '0', '9'), vh.OneOf(c, ". z")))
+	}
+}
+
+// VHC05Arith: every arithmetic operator × every pair of document operand kinds.
+func VHC05Arith() {
+	op := arithOps[vh.Choose("op", len(arithOps))]
+	lk := vh.Choose("lk", nDocKinds)
+	rk := vh.Choose("rk", nDocKinds)
+	l, ls := mkOperand("l", lk, 2)
+	r, rs := mkOperand("r", rk, 2)
+	strShape("l", ls)
+	strShape("r", rs)
+	if op == "%" {
+		modRange(ls)
+		modRange(rs)
+	}
+	if op == "+" && ((lk == kStr && rk == kNum) || (lk == kNum && rk == kStr)) {
+		return // string·number concatenation: VHC05Concat
+	}
+	cell, k, _ := evalExpr("$.l "+op+" $.r", map[string]any{"l": l, "r": r})
+	vh.Reach("arith evaluated")
+	checkResult(cell, k, specArith(op, ls, rs), "C05 "+kindNames[lk]+" "+op+" "+kindNames[rk])
+}
+
+// VHC05Compare: every comparison operator × every pair of document operand kinds.
+func VHC05Compare() {
+	op := cmpOps[vh.Choose("op", len(cmpOps))]
+	lk := vh.Choose("lk", nDocKinds)
+	rk := vh.Choose("rk", nDocKinds)
+	l, ls := mkOperand("l", lk, 2)
+	r, rs := mkOperand("r", rk, 2)
+	if !(lk == kStr && rk == kStr) {
+		strShape("l", ls)
+		strShape("r", rs)
+	}
+	cell, k, _ := evalExpr("$.l "+op+" $.r", map[string]any{"l": l, "r": r})
+	vh.Reach("comparison evaluated")
+	checkResult(cell, k, specCompare(op, ls, rs), "C05 "+kindNames[lk]+" "+op+" "+kindNames[rk])
+}
+
+var concatNums = []float64{0, 1, -3, 1.5, 0.1, 1e21, 123456789012, -0.000001, 5e-324}
+
+// VHC05Concat: string + number concatenates string forms (concrete numbers, the
+// string's bytes symbolic).
+func VHC05Concat() {
+	n := concatNums[vh.Choose("n", len(concatNums))]
+	s := vh.Bytes("s", 2)
+	left := vh.Choose("strLeft", 2) == 0
+	ns := strconv.FormatFloat(n, 'f', -1, 64)
+	if left {
+		cell, k, _ := evalExpr("$.s + $.n", map[string]any{"s": s, "n": n})
+		checkResult(cell, k, sres{kind: resStr, str: s + ns}, "C05 str + num")
+	} else {
+		cell, k, _ := evalExpr("$.n + $.s", map[string]any{"s": s, "n": n})
+		checkResult(cell, k, sres{kind: resStr, str: ns + s}, "C05 num + str")
+	}
+	vh.Reach("concat evaluated")
+}
+
+var isNames = []string{"string", "bool", "number", "array", "object", "null"}
+var isKinds = []int{kStr, kBool, kNum, kArr, kObj, kNull}
+
+// VHC05LogicUnaryIs: ! - + && || is, on every document kind, with short-circuit
+// evaluation observed through a side effect in the right operand.
+func VHC05LogicUnaryIs() {
+	lk := vh.Choose("lk", nDocKinds)
+	l, ls := mkOperand("l", lk, 2)
+	strShape("l", ls)
+	switch vh.Choose("form", 7) {
+	case 0:
+		cell, k, _ := evalExpr("!$.l", map[string]any{"l": l})
+		checkResult(cell, k, sres{kind: resBool, b: !specT(ls)}, "C05 !"+kindNames[lk])
+	case 1:
+		cell, k, _ := evalExpr("-$.l", map[string]any{"l": l})
+		checkResult(cell, k, sres{kind: resNum, num: -specN(ls)}, "C05 unary -"+kindNames[lk])
+	case 2:
+		cell, k, _ := evalExpr("+$.l", map[string]any{"l": l})
+		checkResult(cell, k, sres{kind: resNum, num: specN(ls)}, "C05 unary +"+kindNames[lk])
+	case 3:
+		rk := vh.Choose("rk", nDocKinds)
+		r, rs := mkOperand("r", rk, 1)
+		cell, k, _ := evalExpr("$.l && $.r", map[string]any{"l": l, "r": r})
+		checkResult(cell, k, sres{kind: resBool, b: specT(ls) && specT(rs)}, "C05 "+kindNames[lk]+" && "+kindNames[rk])
+	case 4:
+		rk := vh.Choose("rk", nDocKinds)
+		r, rs := mkOperand("r", rk, 1)
+		cell, k, _ := evalExpr("$.l || $.r", map[string]any{"l": l, "r": r})
+		checkResult(cell, k, sres{kind: resBool, b: specT(ls) || specT(rs)}, "C05 "+kindNames[lk]+" || "+kindNames[rk])
+	case 5:
+		// the right operand runs iff needed: printf writes "x" and yields null (falsy)
+		cell, k, out := evalExpr("$.l && printf('x')", map[string]any{"l": l})
+		checkResult(cell, k, sres{kind: resBool, b: false}, "C05 "+kindNames[lk]+" && <null>")
+		if specT(ls) {
+			vh.Assert(out == "x", "C05 &&: right operand must be evaluated when the left is truthy")
+		} else {
+			vh.Assert(out == "", "C05 &&: right operand must not be evaluated when the left is falsy")
+		}
+		cell, k, out = evalExpr("$.l || printf('x')", map[string]any{"l": l})
+		checkResult(cell, k, sres{kind: resBool, b: specT(ls)}, "C05 "+kindNames[lk]+" || <null>")
+		if specT(ls) {
+			vh.Assert(out == "", "C05 ||: right operand must not be evaluated when the left is truthy")
+		} else {
+			vh.Assert(out == "x", "C05 ||: right operand must be evaluated when the left is falsy")
+		}
+	case 6:
+		i := vh.Choose("isName", len(isNames))
+		cell, k, _ := evalExpr("$.l is "+isNames[i], map[string]any{"l": l})
+		checkResult(cell, k, sres{kind: resBool, b: lk == isKinds[i]}, "C05 "+kindNames[lk]+" is "+isNames[i])
+	}
+	vh.Reach("logic evaluated")
+}
+
+// Operand spellings for the program route (variables, literals, unset, regex, function).
+type progOperand struct {
+	text string // expression text
+	spec sv
+}
+
+// VHC05Program: operands supplied as variables, numeric/string literals with symbolic
+// characters, an unset variable, a regex literal and a function name; the expected
+// value travels in the document and the program prints comparisons against it.
+func VHC05Program() {
+	mk := func(name string) progOperand {
+		switch vh.Choose(name+"_route", 6) {
+		case 0: // variable holding a document number
+			return progOperand{text: "v" + name, spec: sv{kind: kNum, num: 0}} // payload patched below
+		case 1: // numeric literal with symbolic digits
+			d := vh.Bytes(name+"_d", 2)
+			vh.Assume(vh.And(vh.InRange(d[0], '0', '9'), vh.InRange(d[1], '0', '9')))
+			f, _ := strconv.ParseFloat(d, 64)
+			return progOperand{text: d, spec: sv{kind: kNum, num: f}}
+		case 2: // string literal with a symbolic character
+			c := vh.Bytes(name+"_c", 1)
+			vh.Assume(vh.Or(vh.InRange(c[0], '0', '9'), vh.OneOf(c[0], "z ")))
+			return progOperand{text: "'" + c + "'", spec: sv{kind: kStr, str: c}}
+		case 3:
+			return progOperand{text: "unset" + name, spec: sv{kind: kUnset}}
+		case 4:
+			return progOperand{text: "/ab/", spec: sv{kind: kRegex}}
+		}
+		return progOperand{text: "fn", spec: sv{kind: kFn}}
+	}
+	a := mk("a")
+	b := mk("b")
+	x := vh.Float("x")
+	y := vh.Float("y")
+	vh.Assume(vh.IsFinite(x))
+	vh.Assume(vh.IsFinite(y))
+	if a.text == "va" {
+		a.spec.num = x
+	}
+	if b.text == "vb" {
+		b.spec.num = y
+	}
+	ops := []string{"+", "-", "*", "/", "<", "<=", "==", "!=", ">", ">="}
+	opi := vh.Choose("op", len(ops))
+	op := ops[opi]
+	var want sres
+	if opi < 4 {
+		want = specArith(op, a.spec, b.spec)
+	} else {
+		want = specCompare(op, a.spec, b.spec)
+	}
+	doc := map[string]any{"x": x, "y": y}
+	prog := "function fn() { return 1 }\n{ va = $.x; vb = $.y; r = " + a.text + " " + op + " " + b.text + "; "
+	switch want.kind {
+	case resBool:
+		doc["e"] = want.b
+		prog += "print r is bool, r == $.e }"
+		out, k := runProg(prog, doc)
+		vh.Assert(k == OK, "C05 program route: "+op+" must not fail")
+		vh.Assert(out == "true true\n", "C05 program route: "+kindNames[a.spec.kind]+" "+op+" "+kindNames[b.spec.kind]+" wrong result")
+	case resNum:
+		doc["e"] = want.num
+		prog += "print r is number, r == $.e }"
+		out, k := runProg(prog, doc)
+		// a non-finite expectation cannot travel in a JSON document (assumed late: the
+		// constraint is expensive and irrelevant to lexing and parsing)
+		vh.Assume(vh.IsFinite(want.num))
+		vh.Assert(k == OK, "C05 program route: "+op+" must not fail")
+		vh.Assert(out == "true true\n", "C05 program route: "+kindNames[a.spec.kind]+" "+op+" "+kindNames[b.spec.kind]+" wrong result")
+	case resStr:
+		doc["e"] = want.str
+		prog += "print r is string, r == $.e }"
+		out, k := runProg(prog, doc)
+		vh.Assert(k == OK, "C05 program route: "+op+" must not fail")
+		vh.Assert(out == "true true\n", "C05 program route: string concatenation wrong")
+	case resStrAny:
+		prog += "print r is string }"
+		out, k := runProg(prog, doc)
+		vh.Assert(k == OK && out == "true\n", "C05 program route: + with a string operand must yield a string")
+	case resErr:
+		prog += "print 1 }"
+		out, k := runProg(prog, doc)
+		vh.Assert(k == ErrRuntime && out == "", "C05 program route: "+op+" must be a runtime error")
+	case resDontCare:
+		prog += "print 1 }"
+		_, _ = runProg(prog, doc)
+	}
+	vh.Reach("program route evaluated")
+}
+
+var regexCorpus = [][3]string{
+	// subject, pattern, expectation: "t" match, "f" no match, "e" invalid pattern
+	{"abc", "b", "t"}, {"abc", "^b", "f"}, {"", "", "t"}, {"abc", "a.c", "t"}, {"a\nc", "a.c", "f"},
+	{"abc", "(", "e"}, {"abc", "[a-", "e"}, {"abc", "a{2,1}", "e"}, {"12", "^[0-9]+$", "t"}, {"1.5", "^[0-9]+$", "f"},
+	{"xyz", "x|q", "t"}, {"xyz", "\\d", "f"}, {"x1", "\\d", "t"}, {"abc", "(?i)ABC", "t"}, {"abc", "a(?=b)", "e"},
+}
+
+// VHC05Regex: ~ and !~ against RE2 (the library is the environment: concrete corpus),
+// right-operand kind check, invalid patterns, numbers matched by their string form.
+func VHC05Regex() {
+	neg := vh.Choose("neg", 2) == 1
+	op := "~"
+	if neg {
+		op = "!~"
+	}
+	switch vh.Choose("form", 4) {
+	case 0:
+		c := regexCorpus[vh.Choose("case", len(regexCorpus))]
+		cell, k, _ := evalExpr("$.s "+op+" $.p", map[string]any{"s": c[0], "p": c[1]})
+		if c[2] == "e" {
+			vh.Assert(k == ErrRuntime, "C05 ~ with an invalid pattern must be a runtime error")
+		} else {
+			checkResult(cell, k, sres{kind: resBool, b: (c[2] == "t") != neg}, "C05 "+op+" on strings")
+		}
+	case 1: // right operand must be a regex or a string
+		rk := vh.Choose("rk", nDocKinds)
+		r, _ := mkOperand("r", rk, 1)
+		if rk != kStr {
+			_, k, _ := evalExpr("$.s "+op+" $.r", map[string]any{"s": "abc", "r": r})
+			vh.Assert(k == ErrRuntime, "C05 ~ with a "+kindNames[rk]+" on the right must be a runtime error")
+		}
+	case 2: // numbers are matched by their string form
+		cell, k, _ := evalExpr("$.n "+op+" $.p", map[string]any{"n": 12.5, "p": "^12\\.5$"})
+		checkResult(cell, k, sres{kind: resBool, b: !neg}, "C05 number "+op+" string pattern")
+	case 3: // regex literal on the right
+		cell, k, _ := evalExpr("$.s "+op+" /^a.c$/", map[string]any{"s": "abc"})
+		checkResult(cell, k, sres{kind: resBool, b: !neg}, "C05 string "+op+" regex literal")
+	}
+	vh.Reach("regex evaluated")
 }
